@@ -290,6 +290,40 @@ def run_c13(ctx):
                 infra_error=None if valid > 1000 and invalid > 1000 else "vacuous exploration")
 
 
+# ------------------------------------------------------------------------------------------- C09 = (a) flag parsing [driver] + (b) monotonicity [native]
+def run_c09(ctx):
+    import c09_flags
+    ra = c09_flags.run(ctx)
+    rb = run_engine(ctx, "mc_script", ["--mode", "c09b"])
+    if "infra_error" in rb:
+        return _infra("model_checking", rb)
+    cova = ra["coverage"]
+    cov = {
+        "states": cova.get("states", 0) + rb["mono_scripts"], "transitions": cova.get("transitions", 0) + rb["mono_scripts"] * 256,
+        "traces_validated_against_impl": cova.get("traces_validated_against_impl", 0) + rb["mono_pairs"],
+        "samples": (cova.get("samples") or [])[:4] + ["monotonicity: script 0x7551 from stack [01] run under all 256 subsets of R; every cover edge B -> B\\{f} checked"],
+        "exhaustive": True,
+        "bounds": (cova.get("bounds") if isinstance(cova.get("bounds"), list) else [str(cova.get("bounds"))]) + rb["plan"],
+        "flag_parsing": {k: v for k, v in cova.items() if k not in ("samples", "bounds")},
+        "monotonicity_scripts": rb["mono_scripts"], "monotonicity_lattice_edges_checked": rb["mono_pairs"], "lattice_edges_where_the_outcome_changes": rb["mono_outcome_changing_edges"],
+    }
+    vac = ra.get("infra_error")
+    if rb["mono_outcome_changing_edges"] < 1000:
+        vac = "vacuous monotonicity exploration"
+    return dict(level="model_checking", coverage=cov, violations=list(ra["violations"]) + list(rb["violations"]),
+                assumptions=list(ra.get("assumptions", [])) + ["monotonicity: success = ContinueScript returns true; checked on the cover relation of the subset lattice of the 8 execution-relevant flags (exhaustive for inclusion by transitivity); signature-encoding flags are exercised by C02's 2^8 subsets against the reference"],
+                summary="(a) %s; (b) %d scripts x 256 flag sets, %d lattice edges" % (ra.get("summary", ""), rb["mono_scripts"], rb["mono_pairs"]), infra_error=vac)
+
+
+def replay_c09(ctx, path):
+    import json as _j
+    rec = _j.load(open(path))
+    if isinstance(rec.get("replay"), dict) and rec["replay"].get("engine") == "mc_script":
+        return replay_engine("mc_script")(ctx, path)
+    import c09_flags
+    return c09_flags.replay(ctx, path)
+
+
 def _lazy(modname, fn):
     def f(ctx, *a):
         import importlib
@@ -298,6 +332,8 @@ def _lazy(modname, fn):
 
 
 PROPS = {
+    "C08": dict(targets=["btcdeb", "btcdeb_tty", "mc_refcli"], run=_lazy("c08_batch", "run"), replay=_lazy("c08_batch", "replay")),
+    "C09": dict(targets=["btcdeb", "btcdeb_tty", "mc_refcli", "mc_script"], run=run_c09, replay=replay_c09),
     "C13": dict(targets=["mc_tx"], run=run_c13, replay=replay_engine("mc_tx")),
     "C02": dict(targets=["mc_sig"], run=run_c02, replay=replay_engine("mc_sig")),
     "C11": dict(targets=["mc_sig"], run=run_c11, replay=replay_engine("mc_sig")),
